@@ -578,7 +578,7 @@ func (a *align) RefCoordinates(name string, refstart, reflen int) (alistart, ali
 		}
 	}
 
-	if refstart+reflen > len(seq)-ngaps {
+	if reflen > len(seq)-ngaps-refstart {
 		err = fmt.Errorf("start + Length (%d + %d) on reference sequence falls outside the sequence", refstart, reflen)
 	}
 
@@ -597,9 +597,7 @@ func (a *align) RefCoordinates(name string, refstart, reflen int) (alistart, ali
 func (a *align) RefSites(name string, sites []int) (refsites []int, err error) {
 	var exists bool
 	var seq []uint8
-	var tmpi int
 	var site uint8
-	var ngaps int
 	var isite int
 
 	if seq, exists = a.GetSequenceChar(name); !exists {
@@ -607,30 +605,24 @@ func (a *align) RefSites(name string, sites []int) (refsites []int, err error) {
 		return
 	}
 
-	mappos := make(map[int]bool)
+	// positions on the alignment of the non-gap characters of the reference sequence
+	refpos := make([]int, 0, len(seq))
+	for isite, site = range seq {
+		if site != GAP {
+			refpos = append(refpos, isite)
+		}
+	}
+
 	for _, s := range sites {
 		if s < 0 {
 			err = fmt.Errorf("site on reference sequence must be > 0 : %d", s)
 			return
 		}
-		if s >= a.Length() {
-			err = fmt.Errorf("site is outside alignment : %d", s)
+		if s >= len(refpos) {
+			err = fmt.Errorf("site is outside reference sequence : %d", s)
 			return
 		}
-		mappos[s] = true
-	}
-
-	//look for start
-	tmpi = -1
-	for isite, site = range seq {
-		if site != GAP {
-			tmpi++
-			if _, ok := mappos[tmpi]; ok {
-				refsites = append(refsites, isite)
-			}
-		} else {
-			ngaps++
-		}
+		refsites = append(refsites, refpos[s])
 	}
 
 	return
